@@ -84,7 +84,7 @@ FLAVORS = {
             "-fno-omit-frame-pointer"],
     # UB reported but execution continues (used to enumerate all UB sites)
     "sanrec": ["clang++", "-std=c++11", "-O1", "-g", "-w",
-               "-fsanitize=address,undefined", "-fno-omit-frame-pointer"],
+               "-fsanitize=address,undefined", "-fsanitize-recover=address", "-fno-omit-frame-pointer"],
 }
 
 
